@@ -207,13 +207,52 @@ class Hang(Exception):
     is bounded by construction: settle budgets, finite enumerations)"""
 
 
-WATCHDOG = {"quick": 420.0, "thorough": 4 * 3600.0}
+# Watchdog budgets.  Non-termination of the code under test burns CPU, so the deciding budgets are CPU seconds of the
+# process that runs the code (ITIMER_VIRTUAL: user time of that process only) - they do not depend on how loaded the
+# machine is.  The wall-clock limits are a generous backstop for a run that blocks without using CPU.
+CPU_PER_ITEM = {"quick": 300.0, "thorough": 1800.0}  # one work item in a pool worker
+CPU_MAIN = {"quick": 900.0, "thorough": 6 * 3600.0}  # the main process (collecting results, serial parts, replays)
+WATCHDOG = {"quick": 3600.0, "thorough": 12 * 3600.0}  # wall clock, per batch of work items
 TIER = "quick"
+
+
+class CpuLimit(KeyboardInterrupt):
+    """raised by the CPU-time signal inside whatever is running; a KeyboardInterrupt subclass so that neither
+    `except Exception` in a harness nor asyncio's task machinery swallows it"""
+
+
+def _on_cpu_limit(signum, frame):
+    raise CpuLimit()
+
+
+def cpu_guard(limit):
+    """arm the CPU-time watchdog of this process: CpuLimit after `limit` CPU seconds, then again every 5 CPU seconds
+    until it gets through; limit 0 disarms"""
+    import signal
+    if limit:
+        signal.signal(signal.SIGVTALRM, _on_cpu_limit)
+        signal.setitimer(signal.ITIMER_VIRTUAL, limit, 5.0)
+    else:
+        signal.setitimer(signal.ITIMER_VIRTUAL, 0)
+
+
+def _guarded(fn, limit, x):
+    try:
+        cpu_guard(limit)
+        try:
+            return fn(x)
+        finally:
+            cpu_guard(0)
+    except CpuLimit:
+        cpu_guard(0)
+        raise Hang(f"a work item of {getattr(fn, '__name__', None) or getattr(getattr(fn, 'func', None), '__name__', fn)} used more "
+                   f"than {limit:.0f} CPU seconds") from None
 
 
 def pmap(fn, items, chunksize=None, timeout=None):
     """ordered parallel map over a list with the forked pool (fn must be a module-level
     function; workers inherit module state set up before the first call)"""
+    import functools
     items = list(items)
     if not items:
         return []
@@ -223,12 +262,16 @@ def pmap(fn, items, chunksize=None, timeout=None):
         chunksize = max(1, min(256, len(items) // (NPROC * 8) or 1))
     if timeout is None:
         timeout = float(os.environ.get("VERIF_WATCHDOG", WATCHDOG[TIER]))
-    res = pool().map_async(fn, items, chunksize)
+    limit = float(os.environ.get("VERIF_CPU_PER_ITEM", CPU_PER_ITEM[TIER]))
+    res = pool().map_async(functools.partial(_guarded, fn, limit), items, chunksize)
     try:
         return res.get(timeout)
     except multiprocessing.TimeoutError:
         close_pool()
         raise Hang(f"{len(items)} work items of {getattr(fn, '__name__', fn)} did not finish within {timeout:.0f} s") from None
+    except Hang:
+        close_pool()
+        raise
 
 
 class Samples:
